@@ -406,8 +406,8 @@ class ImplViews(ImplEq):
         else:
             mm = "single " + " / ".join(ints(row) for row in I.machines_matrix)
         obm = " / ".join(" ".join(str(o.operation_id) for o in ops) for ops in I.operations_by_machine)
-        padded = " / ".join(" ".join("nan" if _math.isnan(x) else str(int(x)) for x in row)
-                            for row in I.durations_matrix_array.tolist())
+        padded = " / ".join(" ".join("nan" if _math.isnan(x) else ("big" if abs(x) >= 2 ** 24 else str(int(x))) for x in row)
+                            for row in I.durations_matrix_array.tolist())       # float32: exact below 2**24 only
         try:
             mpj = lst(int(x) for x in I.max_duration_per_job)
             mx = str(int(I.max_duration))
